@@ -48,7 +48,19 @@ typedef struct msg_rec {
 	int      dst_running;         /* harness' static knowledge at send time */
 	int      nested_op;           /* op to perform inside the callback (-1 none) */
 	uint64_t stall_ns;
+	int      q_known;             /* the packet's position in its queue's byte stream is known (queue-corruption runs) */
+	int      q_idx;
+	uint64_t q_off;
 } msg_rec;
+
+/* byte-stream ledger of one message queue; kept only to decide which losses stray bytes in a queue excuse */
+#define MAX_QBOUNDS 3000
+typedef struct queue_w {
+	int      rfd, wfd;
+	uint64_t wr_off, rd_off;
+	int      damaged;             /* stray bytes were put into this queue */
+	int      tolerate_all;        /* boundary table overflowed: losses on this queue are not judged */
+} queue_w;
 
 enum { MK_PLAIN = 0, MK_CARRIER, MK_STALL };
 
@@ -59,8 +71,12 @@ typedef struct world {
 	msg_rec *msgs;
 	int     nmsgs;
 	int     teardown;             /* root reached teardown: traffic oracles off */
+	int      stop_hook_selfsend;  /* C05: every stopping thread self-sends with SELF_DIRECT in its stop hook (bit 1: explicit src) */
 	uint64_t slow_stop_hook_ns;   /* the stop hook keeps its thread in the stopping state for this long */
 	int     msg_oracle;           /* C05 ledger violations are reported (only the C05 check) */
+	queue_w q[MAX_POOLS][MAX_THR + 1];   /* [n] = virtual thread */
+	int     nqb;
+	struct { short pool, thr; uint64_t off; } qb[MAX_QBOUNDS];   /* read boundaries inside damaged queues */
 } world;
 extern world W;
 
@@ -71,6 +87,8 @@ void   world_start_threads(int k, int skip_first);
 int    world_thr_index(pool_w *pw, tpt_p tpt);                       /* -1 pvt?, -2 unknown ; pvt => pw->n */
 pool_w *world_pool_of_tpt(tpt_p tpt, int *idx);
 msg_rec *world_new_msg(int op, int kind, int pool, int dst, uint32_t flags);
+void   world_track_queues(int k);                                   /* start the byte-stream ledger of pool k's queues */
+int    world_queue_junk(int pool, int thr, int k, int how);          /* put k stray bytes into a queue; returns bytes written */
 int    world_send(msg_rec *m, tpt_p src_explicit);                   /* performs tpt_msg_send with ledger bookkeeping */
 void   world_msg_cb(tpt_p tpt, void *udata);
 void   world_check_messages(int final);                              /* C05 oracle at quiescence */
